@@ -78,9 +78,19 @@ def word_patterns(r):
 
 
 def signatures(r, sigw, count):
-    """`count` signatures (lists of `sigw` words)."""
+    """`count` signatures (lists of `sigw` words). The extremes (all zero, all
+    ones, every word saturated in turn) are always present: they reach the
+    first and the last segment / shard / sort key."""
+    must = [[0] * sigw, [M64] * sigw]
+    if sigw == 2:
+        must += [[M64, 0], [0, M64]]
+    # top 16-bit limb of each word saturated, the rest random: last segment with arbitrary offsets
+    for k in range(sigw):
+        s = [r.getrandbits(64) for _ in range(sigw)]
+        s[k] |= 0xFFFF << 48
+        must.append(s)
     wp = word_patterns(r)
-    sigs = [[0] * sigw, [M64] * sigw]
+    sigs = []
     if sigw == 1:
         sigs += [[w] for w in wp]
     else:
@@ -104,10 +114,11 @@ def signatures(r, sigw, count):
         sigs.append([(r.getrandbits(64) & ~top & M64)] + [M64 for _ in range(sigw - 1)])
         sigs.append([top] + [M64 for _ in range(sigw - 1)])
     r.shuffle(sigs)
-    sigs = sigs[:max(0, count - 8)]
+    nrand = max(4, count // 5)
+    sigs = must + sigs[:max(0, count - len(must) - nrand)]
     while len(sigs) < count:
         sigs.append([r.getrandbits(64) for _ in range(sigw)])
-    return sigs
+    return sigs[:max(count, len(must))]
 
 
 def edge_ops(r, sigw, count):
